@@ -140,8 +140,24 @@ func fullStackCleanRestart(r *vk.Run, id int) {
 		return
 	}
 	if !reached {
+		diag := ""
+		select {
+		case err := <-agg2.done:
+			diag = fmt.Sprintf(" [the restarted node's Run has returned: %v]", err)
+			agg2.done <- err
+		default:
+			diag = " [the restarted node is still running]"
+		}
+		m2 := agg2.fn.VerifBlockManager()
+		for h := dAfter + 1; h <= accepted && h <= dAfter+3; h++ {
+			if hdr, data, err := agg2.fn.Store.GetBlockData(bg, h); err == nil {
+				diag += fmt.Sprintf(" [block %d: header mark %v, data mark %v (txs %d)]", h, m2.HeaderCache().IsDAIncluded(hdr.Hash().String()), m2.DataCache().IsDAIncluded(data.DACommitment().String()), len(data.Txs))
+			}
+		}
+		lh2, ld2, ph2, pd2 := m2.VerifWatermarks()
+		diag += fmt.Sprintf(" [watermarks %d/%d pending %d/%d]", lh2, ld2, ph2, pd2)
 		r.Violation("invariants-under-concurrency", fmt.Sprintf("clean-restart round: before the clean stop the DA layer had accepted headers and data up to height %d (DA-included height %d, finalization was hanging); 30 s after the restart on the same database and directory, with a healthy execution client and production running (height %d), the DA-included height is %d: what the node knew about accepted blobs did not survive its clean shutdown",
-			accepted, dBefore, height(agg2), dAfter), map[string]any{"round": id})
+			accepted, dBefore, height(agg2), dAfter)+diag, map[string]any{"round": id})
 		return
 	}
 	r.Eval(fmt.Sprintf("fullstack clean restart %d", id), true, map[string]any{"round": id, "accepted_before_stop": accepted, "da_included_before": dBefore, "da_included_after": dAfter})
